@@ -787,9 +787,16 @@ fn run_interop(plan: &Plan, lib: &dyn Lib, rec: &mut Rec) {
     let mut sig_pts = vec![];
     let mut sig_bytes = vec![];
     let repeat_adjacent = x.chance(1, 3);
+    // now and then the messages are a pair that collides under a cheap unkeyed 64-bit fingerprint (env::FP_COLLISIONS),
+    // alternating A, B, A, ...: different messages to the draft, "the same" to a table keyed by such a fingerprint
+    let fp_pairs = crate::env::fp_collision_pairs();
+    let fp_pair = if !fp_pairs.is_empty() && x.chance(1, 4) { Some(fp_pairs[x.below(fp_pairs.len() as u64) as usize].clone()) } else { None };
     for i in 0..n {
         let ski = refimpl::keygen(&[i as u8, (plan.seed & 0xff) as u8, 3]);
-        let mi = if s != Scheme::Basic && repeat_adjacent && i > 0 && i % 2 == 1 { pairs.last().map(|(_, m): &(Pt, Vec<u8>)| m.clone()).unwrap() } else { let mut m = msg.clone(); m.push(i as u8); m };
+        // (also in the Basic scheme: there the draft's AggregateVerify must refuse the list although the equation holds)
+        let mi = if let Some((_, a_msg, b_msg)) = &fp_pair {
+            if i % 2 == 0 { a_msg.clone() } else { b_msg.clone() }
+        } else if repeat_adjacent && i > 0 && i % 2 == 1 { pairs.last().map(|(_, m): &(Pt, Vec<u8>)| m.clone()).unwrap() } else { let mut m = msg.clone(); m.push(i as u8); m };
         let sg = b.sign(s, &ski, &mi);
         let lib_sig = rec.call(lib, g, Op::Sign, &[&refimpl::scalar_to_be(&ski), &[s as u8], &mi]).first().map(|v| v.to_vec()).unwrap_or_default();
         sig_bytes.push(lib_sig);
